@@ -377,7 +377,8 @@ def _line_cb(code, line):
 
 def repo_code_objects(extra=()):
     out = []
-    classes = [repo.adb_device._AdbIOManager, repo.adb_device.AdbDevice, repo.hidden_helpers._AdbPacketStore, repo.hidden_helpers._AdbTransactionInfo]
+    classes = [repo.adb_device._AdbIOManager, repo.adb_device.AdbDevice, repo.hidden_helpers._AdbPacketStore, repo.hidden_helpers._AdbTransactionInfo,
+               repo.adb_message.AdbMessage, repo.hidden_helpers._FileSyncTransactionInfo]
     for cls in classes:
         for name, obj in vars(cls).items():
             fn = obj.fget if isinstance(obj, property) else obj
